@@ -136,6 +136,15 @@ def check_case(ctx, case):
             def cb_mid(f, edges=edges, centers=centers):
                 m = parse_nums(f[0])
                 if not all_close(m, edges.tolist(), rel=1e-9):
+                    # the clustering back-end is not bit-reproducible on tie-heavy data (multi-threaded sums):
+                    # only a mismatch that persists over repeated runs of both sides is reported
+                    dsel = d[d <= (eff if not sparse else min(eff, dmax_stored))]
+                    again = [cluster_centers(bname, dsel, nl) for _ in range(3)]
+                    with quiet():
+                        impl_again = [np.asarray(vario.build(case).bins, float).tolist() for _ in range(2)]
+                    if any(c != centers for c in again) or any(not all_close(e, edges.tolist(), rel=0) for e in impl_again):
+                        ctx.count('clustering_backend_not_reproducible')
+                        return
                     viol('midpoints', '%s: edges %r are not the mid-points of [0]+centres %r' % (
                         bname, edges.tolist(), centers))
             ctx.lean.ask(['c02', 'midpoints', frs(centers)], cb_mid)
